@@ -1578,8 +1578,16 @@ As a workaround use x.as_expr() %s y.as_expr()""" % op)
 
         result = self.sympy.__pow__(x.sympy)
         if not self.is_constant_domain:
-            return self.__class__(result)
-        return x.__class__(result)
+            if self.quantity == 'undefined':
+                ret = self.__class__(result)
+            else:
+                # A power of a voltage, say, is not a voltage.
+                ret = self._class_by_quantity('undefined')(result)
+        else:
+            ret = x.__class__(result)
+        if x.is_constant:
+            ret.units = self.units ** x.sympy
+        return ret
 
     def __rpow__(self, x):
         """Reverse pow, x**self."""
